@@ -249,6 +249,9 @@ func runC19(r *simkit.Run) {
 		}
 	}
 
+	var prevPrefix [32]byte
+	var prevSender common.Address
+	havePrev := false
 	slot := uint64(10)
 	steps := c.Range(6, 22, "steps")
 	for s := 0; s < steps; s++ {
@@ -266,7 +269,15 @@ func runC19(r *simkit.Run) {
 					}
 					gas := simkit.Pick(c, []int64{21_000, 21_000, 21_000, 30_000, 50_000, 79_000, 100_000, 100_001, 250_000}, "gas")
 					// identity prefixes in no particular order relative to the queue order
-					specs = append(specs, logTransactionSubmitted(eon, txCount[ei], [32]byte{byte(c.Intn(256, "prefix-byte")), byte(salt), byte(i), 0x33}, common.BytesToAddress([]byte{0x71, byte(c.Intn(3, "tx-sender"))}), []byte{1}, big.NewInt(gas)))
+					prefix := [32]byte{byte(c.Intn(256, "prefix-byte")), byte(salt), byte(i), 0x33}
+					sender := common.BytesToAddress([]byte{0x71, byte(c.Intn(3, "tx-sender"))})
+					if havePrev && c.Chance(150, "same-identity-again") {
+						// the same user submits again under the same prefix: an identical identity
+						prefix, sender = prevPrefix, prevSender
+						r.Probe("repeated-identity-in-queue")
+					}
+					prevPrefix, prevSender, havePrev = prefix, sender, true
+					specs = append(specs, logTransactionSubmitted(eon, txCount[ei], prefix, sender, []byte{1}, big.NewInt(gas)))
 					txCount[ei]++
 				}
 				// block timestamp = start of the current slot
